@@ -285,6 +285,9 @@ def lean(e):
         if e[1] in ("f32", "f64"):
             # integer → float conversion rounds to 24 / 53 significant bits: kept visible (BigtoolsModel/FloatRound.lean)
             return f"(FR.{e[1]} ({lean(e[2])}))"
+        if e[1] in ("u8", "u16", "u32"):
+            # a cast to a narrower unsigned type keeps the low bits (FR.u32 x = x % 2^32): identity only below the type's range
+            return f"(FR.{e[1]} ({lean(e[2])}))"
         return lean(e[2]) if e[1] in UNSIGNED else f"(↑{lean(e[2])})"
     if k == "call":
         return "(" + " ".join([e[1]] + [lean(a) if a[0] in ("int", "var") else "(" + lean(a) + ")" for a in e[2]]) + ")"
